@@ -23,6 +23,8 @@ from ..engines.linform import swap_sigma
 
 def run(model, rep, tier):
     rep.explanation = __doc__.strip()
+    from ._common import caches_for
+    caches_for(model, rep, 'C26')
     rep.not_decided = 'that every transition appears in exactly one class (search); closure of each class under the space group'
     rep.rule('reversal-pairing', 'each jump added to a symmetry class is added with its reverse and negated displacement')
     rep.rule('displacement-provenance', 'dx of a jump is the vacancy displacement derived from the two pair states')
